@@ -543,7 +543,43 @@ func (st *c08State) collision(kind string, cur c08Rec, curID c08Ident, old c08Re
 		}
 		names = na + " vs " + nb
 	}
-	sig := names + ": " + kind
+	malformed := func(argv []string) bool {
+		switch argv[0] {
+		case "EVAL_RO", "EVALSHA_RO", "FCALL_RO":
+			return len(argv) < 4 // numkeys=1 declared but no key given: rejected by the server, outside the domain
+		}
+		return false
+	}
+	if malformed(oldID.argv) || malformed(curID.argv) {
+		st.r.Outcome("ignored: script command built without its declared key")
+		return
+	}
+	// The signature names the mechanism, not the command: every command shape hit by the same cause
+	// collapses into one finding; a collision NOT explained by that cause gets its own signature.
+	explained := func(argv []string, key, cmd string) bool {
+		for k := 1; k < len(argv); k++ { // the key is one of the tokens; all others joined must give cmd
+			if argv[k] != key {
+				continue
+			}
+			out := ""
+			for i, a := range argv {
+				if i != k {
+					out += a
+				}
+			}
+			if out == cmd {
+				return true
+			}
+		}
+		return false
+	}
+	sig := names + ": " + kind + " (unexplained)"
+	if kind == c08kindBuiltin && explained(oldID.argv, oldID.key, oldID.cmd) && explained(curID.argv, curID.key, curID.cmd) {
+		sig = "built-in store: CacheKey joins the non-key tokens without separators, so token boundaries are lost"
+	} else if kind == c08kindAdapter && (oldID.key != curID.key || oldID.cmd != curID.cmd) {
+		sig = "NewSimpleCacheAdapter: entry name is key+cmd joined without a separator, so the key/command boundary is lost"
+	}
+	st.r.Outcome(names + ": " + kind)
 	c := st.colls[sig]
 	if c == nil {
 		c = &c08Coll{sig: sig, score: 1 << 30, shapes: map[string]bool{}}
